@@ -150,7 +150,8 @@ def features(fam, opts, assertions):
     big = any(len(tok) >= 10 and tok.isdigit() for a in assertions for tok in a.replace('(', ' ').replace(')', ' ').split())
     toks = set(tok for a in assertions for tok in a.replace('(', ' ').replace(')', ' ').split())
     return {'logic': fam.logic, 'family': fam.name, 'options': sorted(opts), 'input_class': 'big_constant' if big else 'small',
-            'bool_var': bool(toks & {'p', 'q', 'r', 's'}), 'engine': engine_of(opts)}
+            'bool_var': bool(toks & {'p', 'q', 'r', 's'}), 'engine': engine_of(opts),
+            'satelite': any(o in opts for o in ('noincr', 'asymm', 'rcheck', 'noelim'))}      # every one of these sets :incremental false (SatELite preprocessing on)
 
 
 def engine_of(opts):
